@@ -69,6 +69,14 @@ def run(ctx):
   done = {}
   for name, d in plan:
     done[name] = explore.bfs(ctx, explore.SPECS[name], d)[0]
+  # the same search from NON-initial states: the whole universe loaded
+  if not ctx.slice:
+    d2 = 3 if ctx.quick else 4
+    for name in ("c02.g1", "c02.g2"):
+      sp = explore.SPECS[name]
+      done[name + "@full"] = explore.bfs(
+          ctx, sp, d2, label=name + "@full",
+          prefix=universe.full_prefix(sp.version))[0]
   ctx.bound_completed = done
 
 
